@@ -3,8 +3,10 @@
 package e1
 
 import (
+	"context"
 	"errors"
 	"fmt"
+	"io"
 	"os"
 	"reflect"
 	"sort"
@@ -498,6 +500,20 @@ func (n *hnode) complete(it item, o outcome) bool {
 }
 
 // ---------------------------------------------------------------- source
+// scriptedSourceErr: what a failing incarnation returns from Start.  Any error means "restart me" (C18); the kinds differ
+// only in what they wrap.
+func scriptedSourceErr(inc int) error {
+	switch (inc + 1) % 4 {
+	case 1:
+		return fmt.Errorf("scripted source failure: poll upstream: %w", context.Canceled)
+	case 2:
+		return io.EOF
+	case 3:
+		return fmt.Errorf("scripted source failure: %w", context.DeadlineExceeded)
+	}
+	return errors.New("scripted source failure")
+}
+
 type hsrc struct {
 	fbcontext.ContextAware
 	r   *rt
@@ -567,7 +583,7 @@ func (s *hsrc) Start() error {
 			case 5:
 				s.r.log(sx.T(sx.L(3), sx.L(int64(s.inc)), sx.L(0)))
 				close(c.ack)
-				return errors.New("scripted source failure")
+				return scriptedSourceErr(s.inc)
 			}
 		}
 		return nil
@@ -597,7 +613,7 @@ func (s *hsrc) Start() error {
 		}
 		return nil
 	}
-	return errors.New("scripted source failure")
+	return scriptedSourceErr(s.inc)
 }
 
 // ---------------------------------------------------------------- building and observing
